@@ -1,5 +1,6 @@
 """C16 — reported extents agree with what can be read."""
 import os, sys
+import struct
 from vlib import common as C
 from vlib import framework as F
 from vlib import gen, streams
@@ -187,11 +188,63 @@ def run(ctx):
                     ctx.fail("correspondence", "impl model and library differ on '%s' [%s]: model '%s', library '%s'" % (l, df.enc, m[:100], a[:100]),
                              {"correspondence": "gen_extents", "script": script_of(lines, l), "model": m, "observed": a}, has_input=False)
         k += len(lines)
+    # ---- stream R: the reference field lives in an included fragment with its own frame offset; extents right after a write ----
+    rchunks, rmeta = [], []
+    for i in range(60 if ctx.thorough() else 18):
+        enc = rng.choice(['none', 'text', 'sie', 'gzip'])
+        ty = rng.choice(['u8', 'u16', 'i32', 'f64'])
+        spf = rng.choice([1, 2, 3, 5])
+        fo0, fo1 = rng.choice([0, 2, 7]), rng.choice([0, 1, 3, 5])
+        n = rng.choice([0, 1, spf, 3 * spf + rng.randint(0, spf - 1), 17])
+        vals = [rng.randint(0, 9) for _ in range(n)]
+        how = rng.choice(["explicit", "implicit", "root"])
+        root = ["/VERSION 10", "/ENCODING " + enc] + (["/FRAMEOFFSET %d" % fo0] if fo0 else [])
+        # (always spelled out: an included fragment without /FRAMEOFFSET inherits its parent's — C09)
+        sub = ["/VERSION 10", "/ENCODING " + enc, "/FRAMEOFFSET %d" % fo1, "r RAW %s %d" % (gen.GDNAME[ty], spf)]
+        if how == "root":
+            root += ["r RAW %s %d" % (gen.GDNAME[ty], spf), "k CONST UINT8 1"]
+            sub = sub[:-1] + ["q CONST UINT8 2"]
+            fo, path = fo0, "r"
+        else:
+            root += ["/INCLUDE sub/inc"] + (["/REFERENCE r"] if how == "explicit" else []) + ["k CONST UINT8 1"]
+            fo, path = fo1, "sub/r"
+        if how == "root":
+            root.insert(len(root) - 2, "/INCLUDE sub/inc")
+        raw = gen.encode_samples(ty, 'le', vals)
+        L = ["reset", "file format " + ("\n".join(root) + "\n").encode().hex(), "file sub/inc " + ("\n".join(sub) + "\n").encode().hex(),
+             "file %s%s %s" % (path, gen.ENC_EXT[enc], gen.file_encode(enc, ty, 'le', vals, raw).hex()),
+             "open rdwr", "nframes", "eof r"]
+        k = rng.randint(1, 2 * spf + 1)
+        L += ["put r 0 %d %s %s" % (fo * spf + n, ty, ",".join("%x" % (v if ty != 'f64' else struct.unpack('<Q', struct.pack('<d', float(v)))[0]) for v in range(1, k + 1))),
+              "eof r", "nframes", "get r 0 0 0 100000 f64"]
+        rchunks.append(L)
+        rmeta.append((enc, ty, spf, fo, n, k, how))
+    for ci, (lines, out, crashed, err) in enumerate(streams.run_chunks(harness, rchunks, "c16r")):
+        enc, ty, spf, fo, n, k, how = rmeta[ci]
+        if crashed or len(out) < len(lines):
+            ctx.fail("input", "library aborted in the reference-fragment stream: %s" % err[-300:], {"script": lines[:len(out) + 1], "stderr": err[-2500:]}, sig={"class": "crash"})
+            continue
+        ans = [streams.strip_rl(o)[0] for o in out]
+        ctx.evaluations += 4
+        ctx.distinct.add(("ref-fragment", enc, how))
+        exp = [("nframes", 5, "nframes %d e=0" % (fo + n // spf)), ("eof r", 6, "eof %d e=0" % (fo * spf + n)),
+               ("eof r after the write", 8, "eof %d e=0" % (fo * spf + n + k)), ("nframes after the write", 9, "nframes %d e=0" % (fo + (n + k) // spf))]
+        for what, idx, e in exp:
+            if ans[idx] != e:
+                ctx.fail("input", "%s [%s, reference field %s, frame offset %d, %d + %d samples at %d per frame]: library '%s', the field holds '%s'" % (
+                    what, enc, how, fo, n, k, spf, ans[idx], e), {"script": lines[:idx + 1], "expected": e, "observed": ans[idx]},
+                    sig={"class": "nframes" if what.startswith("nframes") else "eof"})
+                break
+        else:
+            got = ans[10].split(" d=")[0]
+            if got != "get n=%d e=0" % (fo * spf + n + k):
+                ctx.fail("input", "get r after the write returns '%s', the field holds %d samples" % (got, fo * spf + n + k), {"script": lines}, sig={"class": "count"})
     ctx.coverage.update({
         "rule": "random dirfiles as in C01 biased to PHASE shifts (both directions, larger than the field), unequal lengths and rates, partial trailing frames and samples, "
                 "encodings none/text/sie/gzip/bzip2/lzma; per field gd_eof, gd_bof, gd_spf and gets straddling both ends (s in bof-2..bof+2, eof-3..eof+2; n in {0,1,2,5,1000}); "
                 "each get count checked against the library's own gd_eof (the property), every answer against the impl model and the spec",
         "dirfiles": ndf, "ops": hist,
+        "reference_fragment_stream": "%d dirfiles: reference field explicit / implicit in an included fragment with its own /FRAMEOFFSET, or in the root; gd_nframes and gd_eof before and immediately after an append through the same handle (none, text, sie, gzip)" % len(rchunks),
     })
     if res:
         lines, out, _, _ = res[0]
